@@ -232,6 +232,7 @@ static int shape_ok(char cls, unsigned char c)
         case 'k': return (c >= 'A' && c < 'A' + M) || (c >= 'a' && c < 'a' + M);      /* command letter of the fixed table */
         case ',': return c == ',';
         case 'q': return c == '"';
+        case '3': return c == 'C' || c == 'c';                      /* the third command of the fixed table */
         default:  return 1;                                        /* '*': any byte */
         }
 }
@@ -581,6 +582,7 @@ static unsigned char shape_sample(char cls, unsigned ci, unsigned ni)
         case ',': return ',';
         case 'q': return '"';
         case 'k': return (unsigned char)((rnd(2) ? 'A' : 'a') + rnd(M));
+        case '3': return rnd(2) ? 'C' : 'c';
         default:
                 for (;;) {
                         unsigned r = rnd(10);
